@@ -70,6 +70,11 @@ def generate(thorough):
                     if expected:
                         cons_opts.append(["v != %s;" % expected[0]])
                         cons_opts.append(["v == %s;" % expected[-1]])
+                        # the instance on the left-hand side (its class may be a strict subtype of the variable's type)
+                        cons_opts.append(["%s != v;" % expected[-1]])
+                        cons_opts.append(["%s == v;" % expected[0]])
+                        if len(expected) > 1:
+                            cons_opts.append(["%s == v;" % expected[-1]])
                     for cons in cons_opts:
                         add(" ".join(lines + cons), {"kind": "domain", "hier": hname, "vtype": vt, "expected": expected, "names": names, "cons": cons, "late": late_name})
     # ---- two variables, equality / disequality ----
@@ -155,8 +160,11 @@ def judge(prog, res):
                 out.append(("C17:variable-of-type-without-instances:" + tag, "no instance of %s exists at the declaration, yet the program is reported %s" % (m["vtype"], v)))
             return out or None
         cons = m["cons"]
-        excluded = [c.split()[2].rstrip(";") for c in cons if "!=" in c]
-        forced = [c.split()[2].rstrip(";") for c in cons if "==" in c]
+        def other(c):  # the instance named in `v OP inst;` or `inst OP v;`
+            a, _, b = c.rstrip(";").split()
+            return b if a == "v" else a
+        excluded = [other(c) for c in cons if "!=" in c]
+        forced = [other(c) for c in cons if "==" in c]
         feasible = [x for x in exp if x not in excluded and (not forced or x in forced)]
         if v in ("inconsistent", "unsolvable"):
             if feasible:
